@@ -46,4 +46,6 @@ VARIANTS = [
         dict(file=M, old="            last_node_idx = self.max_node\n", new="            last_node_idx = self.max_node\n            assert last_node_idx in self\n")]),
     dict(name='benign-materialise-as-tuple', expect='silent', edits=[
         dict(file=M, old="        nodes = list(nodes)\n        super().remove_nodes_from(nodes)", new="        nodes = tuple(nodes)\n        super().remove_nodes_from(nodes)")]),
+    dict(name='benign to_molecule atom from dict(defaults)', expect='silent', edits=[
+        dict(file=M, old="            new_atom = default_attributes.copy()", new="            new_atom = dict(default_attributes)")]),
 ]
